@@ -101,6 +101,8 @@ def run(ctx):
         filters.append(ast.UnaryOp(ast.Not(), ast.Compare(ast.In(), I("i2"), ast.List(items))))
     sitems = [S("zz%d" % k) for k in range(1100)] + [S("ab"), S("O'B")]
     filters.append(ast.Compare(ast.In(), I("s1"), ast.List(sitems)))
+    # one sub-expression twice in a filter, in every pair of operand contexts (a printer that keeps state per node between two visits)
+    filters += sc.repeated_subterms(z=ast.Integer("3"), r=third)
     uniq = sc.dedup(filters)
     nodes = [n for w, n in uniq]
     texts = texts_of(nodes)
